@@ -21,6 +21,7 @@ from harness.core import compare_batch, err_name, run_oracle_cases
 PROP = 'C19'
 PROOF_MODULES = ['Ladybug.Props.C19']
 GREP_MODULES = ['Ladybug.Py', 'Ladybug.Model.Cal', 'Ladybug.Model.Sql', 'Ladybug.Proofs.C19Lemmas',
+                'Ladybug.Proofs.C19Struct', 'Ladybug.Proofs.C19Time',
                 'Ladybug.Drv.C19', 'Ladybug.DrvCore']
 RULE = ('synthetic EnergyPlus databases (tables ReportDataDictionary, ReportData, Time, EnvironmentPeriods, '
         'Simulations; schema copied from the shipped files): 1..3 outputs x 1..5 keys x 1..4 environments '
@@ -1389,7 +1390,13 @@ LEVEL_TEXT = ('Machine-checked Lean 4 theorems over an executable model of sql.p
               'periods is, period by period, the partition of that period\'s slice (hence one run period = slice '
               'of all); J values are divided by 3 600 000 and relabelled kWh, other units untouched; the '
               'analysis period, timestep, leap flag and class follow from the first/last Time rows; absent '
-              'outputs give []. The model is compared with the real SQLiteResult on synthetic EnergyPlus '
+              'outputs give []; end to end, for a database whose rows are in EnergyPlus order (n keys, m run '
+              'periods, Time table = concatenation of the environments) data_collections_by_output_name returns '
+              'exactly, per period and key, that key\'s values in time order (converted iff its own unit is J), '
+              'labelled with the key, under the environment\'s period, in the class of the frequency; the '
+              'run-period query returns the corresponding group of collections; annual data gives one value per '
+              'run period and key; _extract_all_run_period = one _extract_run_period per environment when rows of '
+              'one interval type are used. The model is compared with the real SQLiteResult on synthetic EnergyPlus '
               'databases, the shipped files and the static helpers on every run.')
 LEVEL_NOTE = ('Trusted: Lean kernel; axioms propext/Classical.choice/Quot.sound only; the correspondence run '
               '(agreement on generated databases only); sqlite3 query semantics and row order; the '
